@@ -108,6 +108,58 @@ def _class(inp, x):
     return None
 
 
+def _dask_convention(inp, x, val):
+    """What dask's documented convention gives for an index in which a slice separates an integer from the array index:
+    integers are basic indices, the array axis keeps its place (NumPy moves it first). Returns ("values", array) — the
+    array after assigning `val` read in that axis order — or ("ValueError", None) when `val` does not broadcast to it."""
+    import numpy as np
+    kinds = inp["index"]
+    nell = len(x.shape) - sum(1 for k, _ in kinds if k != "ellipsis")
+    full = []
+    for k, v in kinds:
+        full += [("slice", [None, None, None])] * nell if k == "ellipsis" else [(k, v)]
+    full += [("slice", [None, None, None])] * (len(x.shape) - len(full))
+    idx2, keep = [], []
+    for (k, v), n in zip(full, x.shape):
+        if k == "int":
+            idx2.append(slice(v % n, v % n + 1))
+            keep.append(False)
+        elif k == "slice":
+            idx2.append(slice(*v))
+            keep.append(True)
+        else:
+            idx2.append(np.array(v, dtype=bool if k in ("bool", "dabool") else int))
+            keep.append(True)
+    y = x.copy()
+    with_ones = y[tuple(idx2)].shape
+    implied = tuple(s for s, kp in zip(with_ones, keep) if kp)
+    try:
+        v = np.broadcast_to(np.asarray(val), implied).reshape(with_ones)
+    except ValueError:
+        return "ValueError", None
+    y[tuple(idx2)] = v
+    return "values", y
+
+
+def _known_sig(inp, x, val, symptom, got=None):
+    """signature of the known finding `int+fancy-split` — only when the observed behaviour is exactly dask's documented
+    axis-order convention (another wrong result / another error in the same input class is a fresh violation)"""
+    if _class(inp, x) != "int+fancy-split":
+        return None
+    kind, alt = _dask_convention(inp, x, val)
+    if symptom == "wrong-values":
+        ok = kind == "values" and got is not None and np_equal(alt, got)
+    else:
+        ok = symptom == "ValueError" and kind == "ValueError"
+    return f"setitem:int+fancy-split:{symptom}" if ok else None
+
+
+def np_equal(a, b):
+    import numpy as np
+    a, b = np.asarray(a), np.asarray(b)
+    return a.shape == b.shape and bool((a == b).all())
+
+
 class _Recorder:
     """Stands in for the assignment value inside setitem_array and records the value indices requested per block."""
 
@@ -210,7 +262,7 @@ def case_plan(ctx, inp):
         ctx.note("dask-not-implemented")
         return
     except Exception as e:
-        ctx.fail("setitem_array raised " + type(e).__name__, sig=None if cls is None else f"setitem:{cls}:{type(e).__name__}",
+        ctx.fail("setitem_array raised " + type(e).__name__, sig=_known_sig(inp, x, val, type(e).__name__),
                  observed=repr(e)[:200])
         return
     # --- per-axis Lean plans
@@ -353,12 +405,12 @@ def case_plan(ctx, inp):
                 blk[bi_np] = piece
         except Exception as e:
             ctx.fail("replaying the plan on NumPy raised " + type(e).__name__,
-                     sig=None if cls is None else f"setitem:{cls}:{type(e).__name__}", observed=repr(e)[:200])
+                     sig=_known_sig(inp, x, val, type(e).__name__), observed=repr(e)[:200])
             return
         out[region] = blk
     if (out != y).any():
         ctx.fail("the plan of setitem_array does not perform NumPy's assignment",
-                 sig=None if cls is None else f"setitem:{cls}:wrong-values", observed=out.tolist(), expected=y.tolist())
+                 sig=_known_sig(inp, x, val, "wrong-values", out), observed=out.tolist(), expected=y.tolist())
     kinds = [k for k, _ in inp["index"]]
     for k in set(kinds):
         ctx.branch("plan-" + k)
@@ -400,11 +452,11 @@ def case_api(ctx, inp):
         return
     except Exception as e:
         ctx.fail("x[index] = value raised " + type(e).__name__ + " where NumPy succeeds",
-                 sig=None if cls is None else f"setitem:{cls}:{type(e).__name__}", observed=repr(e)[:300])
+                 sig=_known_sig(inp, x, val, type(e).__name__), observed=repr(e)[:300])
         return
     if got.shape != y.shape or (got != y).any():
         ctx.fail("x[index] = value; x.compute() differs from NumPy",
-                 sig=None if cls is None else f"setitem:{cls}:wrong-values", observed=got.tolist(), expected=y.tolist())
+                 sig=_known_sig(inp, x, val, "wrong-values", got), observed=got.tolist(), expected=y.tolist())
         return
     if d.chunks != chunks:
         ctx.fail("chunks changed by the assignment", observed=[list(c) for c in d.chunks], expected=[list(c) for c in chunks])
